@@ -31,8 +31,10 @@ def load_prop(pid: str):
 def analyse_findings(pid: str, src: Source):
     mod = load_prop(pid)
     reports = mod.analyse(src)
-    for r in reports:
-        r.check_minimums()
+    if not any(r.findings for r in reports):
+        # vacuity guard; when violations were found they take precedence and are reported as such
+        for r in reports:
+            r.check_minimums()
     return mod, reports
 
 
@@ -98,6 +100,9 @@ def main(argv=None) -> int:
             print(f"[{pid}] self-test: {selftest['mutants_detected']}/{selftest['mutants_applied']} mutants reported, "
                   f"{selftest['twins_silent']}/{selftest['twins_applied']} behaviour-preserving twins silent, "
                   f"{selftest['skipped']} skipped (anchor text not present)")
+            for r in selftest["results"]:
+                if r["status"] == "skipped":
+                    print(f"[{pid}] self-test skipped (anchor text not present): {r['kind']} '{r['name']}'")
             if selftest["failures"]:
                 for fl in selftest["failures"]:
                     print(f"ANALYSIS-ERROR property={pid} self-test failed: {fl}")
